@@ -713,7 +713,10 @@ func (r *runner) finger() string {
 
 // bfs explores the abstract state graph of the IMPLEMENTATION breadth-first: every (fingerprint,
 // event kind) edge becomes one case (shortest path to the fingerprint + the event).
-func bfs(cfg Case, g *vh.Rng, maxStates int) ([]vh.Case, int) {
+// With sample=true (quick tier) the graph is still explored to the fixed point but only the first
+// edge of every (source state, event kind) pair is emitted.
+func bfs(cfg Case, g *vh.Rng, maxStates int, sample bool) ([]vh.Case, int) {
+	kept := map[string]bool{}
 	type node struct{ path []Ev }
 	seen := map[string]bool{}
 	var queue []node
@@ -735,10 +738,15 @@ func bfs(cfg Case, g *vh.Rng, maxStates int) ([]vh.Case, int) {
 				r.m.Down()
 				continue
 			}
+			src := fmt.Sprintf("%d/%s", r.snap.State, k)
 			r.apply(e)
 			f := r.finger()
 			path := append([]Ev(nil), r.c.Evs...)
-			cases = append(cases, r.finish("gen:bfs"))
+			vc := r.finish("gen:bfs")
+			if !sample || !kept[src] {
+				kept[src] = true
+				cases = append(cases, vc)
+			}
 			if !seen[f] {
 				seen[f] = true
 				queue = append(queue, node{path: path})
@@ -873,16 +881,13 @@ func main() {
 
 	// 1. breadth-first exploration to a fixed point of fingerprints (clause 6 off: safety clauses)
 	var bfsCases []vh.Case
-	maxStates := 24
-	if cfg.Thorough() {
-		maxStates = 100000
-	}
+	maxStates := 100000
 	fix := map[string]int{}
 	for i, bc := range bfsCfgs() {
 		if !cfg.Thorough() && i == 2 {
 			continue
 		}
-		cs, n := bfs(bc, g.Fork(), maxStates)
+		cs, n := bfs(bc, g.Fork(), maxStates, !cfg.Thorough())
 		bfsCases = append(bfsCases, cs...)
 		fix[fmt.Sprintf("%s#%d", bc.Proto, i)] = n
 	}
@@ -891,7 +896,7 @@ func main() {
 	vh.Emit(cfg, "bfs", header, footer, bfsCases, extra)
 
 	// 2. random sequences, 3. silent peer; each also with the always-terminates clause switched on
-	nrand, depth, nsil := 500, 8, 120
+	nrand, depth, nsil := 400, 8, 120
 	if cfg.Thorough() {
 		nrand, depth, nsil = 8000, 24, 1500
 	}
